@@ -188,9 +188,15 @@ func c11RabinScenario(c *kc.Ctx, mock bool, n, t int, faults map[int]string, rng
 			run(func() { _ = x.gen.ProcessJustification(jc) })
 		}
 	}
-	// 3. timeout
+	// 3. timeout: needed only when a response is missing; otherwise a node may or may not call it
+	needTimeout := false
+	for _, f := range faults {
+		if f == "absent" || f == "noResponses" {
+			needTimeout = true
+		}
+	}
 	for _, x := range nodes {
-		if x.fault != "absent" {
+		if x.fault != "absent" && (needTimeout || rng.Intn(2) == 0) {
 			run(func() { x.gen.SetTimeout() })
 		}
 	}
